@@ -17,6 +17,7 @@ Variants == {V(1, 0, 0, 0, <<>>, <<>>, <<>>),
              V(2, 1, 0, 0, <<>>, <<>>, <<>>),
              V(1, 0, 2, 0, <<>>, <<>>, <<>>),
              V(1, 0, 0, 3, <<<<3, 4>>>>, <<>>, <<>>),
+             V(1, 0, 0, 5, <<>>, <<>>, <<>>),                      \* a prefix the node's own map does not declare
              V(2, 0, 0, 0, <<>>, <<<<1, 1>>, <<2, 2>>>>, <<>>),
              V(2, 0, 0, 0, <<>>, <<<<2, 2>>, <<1, 1>>>>, <<>>),
              V(1, 5, 0, 0, <<>>, <<>>, <<<<6, 2>>>>),
